@@ -303,7 +303,7 @@ func (self *TextParser) ParseRequest() error {
 				} else {
 					self.args[len(self.args)-1] += string(self.rbuf[self.bufIndex : self.bufIndex+cargLen])
 				}
-				self.cargIndex = cargLen
+				self.cargIndex = self.cargLen
 				self.bufIndex += cargLen
 			}
 
@@ -447,7 +447,7 @@ func (self *TextParser) ParseResponse() error {
 				} else {
 					self.args[len(self.args)-1] += string(self.rbuf[self.bufIndex : self.bufIndex+cargLen])
 				}
-				self.cargIndex = cargLen
+				self.cargIndex = self.cargLen
 				self.bufIndex += cargLen
 			}
 
